@@ -416,6 +416,16 @@ func accessorRangeChecks(c *Ctx, call *core.Term, key *core.Term) bool {
 			}
 			l, r := cnd.Args[0], cnd.Args[1]
 			isP := func(t *core.Term) bool { return t.Op == "param" && t.Name == param.Name() }
+			// the mirrored spelling (lo <= p): bring the key to the left
+			if isP(r) && !isP(l) {
+				if m, ok := map[string]string{"<": ">", ">": "<", "<=": ">=", ">=": "<="}[cnd.Name]; ok {
+					cp := *cnd
+					cp.Name = m
+					cp.Args = []*core.Term{r, l}
+					cnd = &cp
+					l, r = r, l
+				}
+			}
 			// ¬(p < lo) , ¬(p > hi)
 			if !nn.Sign && cnd.Name == "<" && isP(l) && !isP(r) {
 				lo = true
